@@ -17,7 +17,10 @@ SetOfSeq(s) == {s[i] : i \in 1..Len(s)}
 TraceInit == Init /\ l = 1
 IsEvent(e) == l <= Len(Log) /\ Log[l].ev = e /\ l' = l + 1
 
-TraceReset == IsEvent("reset") /\ recs' = [n \in Nodes |-> {}] /\ tuns' = [n \in Nodes |-> {}] /\ ridx' = [n \in Nodes |-> {}]
+TraceReset == /\ IsEvent("reset") /\ recs' = [n \in Nodes |-> {}] /\ tuns' = [n \in Nodes |-> {}] /\ ridx' = [n \in Nodes |-> {}]
+              /\ am' = [n \in Nodes |-> IF AmRelay[n] THEN "on" ELSE "off"]
+\* {"ev":"Reload","n":"R","am":false}: the node's configuration was reloaded with this relay.am_relay
+TraceReload == IsEvent("Reload") /\ Reload(Log[l].n, Log[l].am)
 \* "ridx":[[index, tunnel],..] = HostMap.Relays after the step (tunnel 0: the index leads to a tunnel the node no longer holds)
 Ridx(e) == {<<x[1], x[2]>> : x \in SetOfSeq(e.ridx)}
 
@@ -29,7 +32,7 @@ TraceRecv == /\ IsEvent("Recv")
 TraceLocal == /\ IsEvent("Local")
               /\ LET e == Log[l] IN Local(e.n, SetOfSeq(e.recs), SetOfSeq(e.tuns), Ridx(e), LAMBDA r : r.tun \in SetOfSeq(e.live))
 
-TraceNext == TraceReset \/ TraceRecv \/ TraceLocal
+TraceNext == TraceReset \/ TraceRecv \/ TraceLocal \/ TraceReload
 TraceSpec == TraceInit /\ [][TraceNext]_tvars
 TraceAccepted == TLCGet("stats").diameter - 1 = Len(Log)
 =============================================================================
